@@ -1,2 +1,3 @@
-(* C11 — executable model: primitive codec (L0) and schema interpreter (L1).  No proofs here. *)
-From C11 Require Export Prim Schema.
+(* C11 — executable model: primitive codec (L0), schema interpreter (L1), JSON-value / literal codecs, Instance fast
+   paths, SymbolTable(Node) and the recursive whole-object codec (L2), table checks.  No proofs here. *)
+From C11 Require Export Prim Schema Tables Json Types.
